@@ -34,7 +34,7 @@ ASSUMPTIONS = [
     "read-back of a target temperature allows one device step (C14 decides exactness)",
 ]
 BUDGET = {
-    "quick": {"workers": 16, "examples": 3200},
+    "quick": {"workers": 16, "examples": 4800},
     "thorough": {"workers": 16, "examples": 64000},
 }
 
